@@ -146,10 +146,11 @@ def check_one(con, vname, fn, case, env0, timeout_s=5, pid=None):
         return 'skipped', [f"requires raised {type(e).__name__}: {e}"]
     # pre-state values
     pre = {}
-    for group in (ensures, con.ensures_raise.get('*', {})):
+    for group in (ensures,):
         for name, text in group.items():
             pre[text] = eval_olds(text, env)
-    for d in con.ensures_raise.values():
+    ens_raise = {k: con._filter(d, pid) for k, d in con.ensures_raise.items()}
+    for d in ens_raise.values():
         for name, text in d.items():
             pre[text] = eval_olds(text, env)
     raise_expect = {e: bool(eval_clause(c, env)) for e, c in raises.items()}
@@ -187,7 +188,7 @@ def check_one(con, vname, fn, case, env0, timeout_s=5, pid=None):
             if not expect:
                 failures.append((f'raises:{declared}:only_if', f'raised {ename}: {exc} although the condition is false'))
             env['exc'] = exc
-            for name, text in con.ensures_raise.get(declared, {}).items():
+            for name, text in ens_raise.get(declared, {}).items():
                 try:
                     if not eval_clause(text, env, pre.get(text)):
                         failures.append((f'on_raise:{declared}:{name}', 'clause false'))
@@ -233,7 +234,7 @@ def check_one(con, vname, fn, case, env0, timeout_s=5, pid=None):
         env['out'] = out
         result = out
         if not failures:
-            for name, text in con.final.items():
+            for name, text in con._filter(con.final, pid).items():
                 try:
                     if not eval_clause(text, env):
                         failures.append((f'post:{name}', f'clause false after {len(out)} items'))
